@@ -5,7 +5,7 @@ CloseGuard (R3), clearing resets stored data (R4), releases go through the ownin
 """
 from rulekit import Facts, where, proj_names
 from rulekit.sym import PathEval, show
-from rulekit.query import field_users, guards_of, ordering_of, ORD_RANK, const_int, recv_fields, peel_bool
+from rulekit.query import option_test, field_users, guards_of, ordering_of, ORD_RANK, const_int, recv_fields, peel_bool
 
 S = "tracing_subscriber::registry::sharded::"
 REG = S + "Registry"
@@ -128,6 +128,8 @@ def r1(ck, F):
                 if p.end != "return":
                     continue
                 took_true = any(is_test(c[0]) and c[1] != 0 for c in p.conds)
+                if not any(is_test(c[0]) for c in p.conds) and not all(option_test(c)[1] is False or c[0][0] == "const" for c in p.conds):
+                    ok = False      # a return before the stack was consulted, for a reason other than "there is no stack"
                 seen_true = seen_true or took_true
                 # the action is performed on exactly the paths on which the test was true
                 if took_true != (acts[0] in p.blocks):
